@@ -73,3 +73,36 @@ func VerifC06_SocketsSendUDP()     { c06Sockets(0, "SendUDP") }
 func VerifC06_SocketsSendTCP()     { c06Sockets(1, "SendTCP") }
 func VerifC06_SocketsBroadcastTo() { c06Sockets(2, "BroadcastTo") }
 func VerifC06_SocketsBroadcast()   { c06Sockets(3, "Broadcast") }
+
+// with faults: whatever fails (socket cannot be opened, bind address in use, write fails), a request that does
+// leave leaves from the configured bind port, at most once, and only to the requested endpoint
+func c06SocketsFaults(route int, what string) {
+	const timeout = 300 * time.Millisecond
+	verifClock()
+	verifNetFaults(true)
+	verifNetScript(nil)
+	bport := int(nondetU16("bind.port"))
+	verifAssume(bport >= 20000 && bport < 30000)
+	verifBindPortBusy(bport)
+	u := &ut0311{bindAddr: netip.AddrPortFrom(netip.AddrFrom4([4]byte{127, 0, 0, 1}), uint16(bport)), timeout: timeout}
+	req := nondetBytes("request", 64)
+	verifAssume(req[1] != 0x96)
+	peer := &net.UDPAddr{IP: net.IPv4(127, 0, 0, 1), Port: verifPeerPort()}
+	switch route {
+	case 0:
+		u.SendUDP(peer, req)
+	case 1:
+		verifNetConnectMax(int64(5 * time.Millisecond))
+		u.SendTCP(&net.TCPAddr{IP: peer.IP, Port: verifDialTarget()}, req)
+	}
+	n := verifPeerRequests()
+	verifAssert(n <= 1 && verifNetStray() == 0, what+": at most one request, nothing goes anywhere else")
+	if n == 1 {
+		verifAssert(verifPeerFromPort(0) == bport, what+": a request that leaves, leaves from the configured bind port")
+	}
+	verifAssert(verifSockOpen() == 0, what+": the socket is closed afterwards")
+	verifReach("c06.sockets.faults." + what)
+}
+
+func VerifC06_SocketsFaultsUDP() { c06SocketsFaults(0, "SendUDP") }
+func VerifC06_SocketsFaultsTCP() { c06SocketsFaults(1, "SendTCP") }
